@@ -511,6 +511,8 @@ func (c connectStreamServerProtocol) addProtocolRequestHeaders(meta requestMeta,
 	headers.Set("Content-Type", contentConnectStreamPrefix+meta.codec)
 	setOrDelete(headers, "Connect-Content-Encoding", meta.compression)
 	setOrDelete(headers, "Connect-Accept-Encoding", strings.Join(meta.acceptCompression, ", "))
+	// (also replaces a value the client sent under this key as plain metadata of its own protocol)
+	headers.Set("Connect-Protocol-Version", "1")
 	timeoutStr := ""
 	if meta.hasTimeout {
 		timeoutStr = connectEncodeTimeout(meta.timeout)
